@@ -20,6 +20,8 @@ func ixSpec(name string, withIndexes bool) adapt.TableSpec {
 			{Name: "gsi1", Hash: "g"},
 			{Name: "gsi2", Hash: "g", Range: "s"},
 			{Name: "lsi1", Hash: "h", Range: "s", Local: true},
+			// an "inverted" index: its key attributes are the table's own key attributes
+			{Name: "gsi4", Hash: "r", Range: "h"},
 		}
 	}
 	return s
